@@ -260,4 +260,128 @@ Proof.
       exists [], c0, body. repeat split; auto.
 Qed.
 
+(* ------------------------------------------------------------- number lexemes *)
+(* common shape of a written integer or real: optional '-', a digit, and the loop of
+   read_num consumes exactly the text when a delimiter follows *)
+Definition numlex (t : list Z) : Prop :=
+  exists sign c0 body, t = sign ++ c0 :: body /\ ascii_digit c0 = true /\ (sign = [] \/ sign = [45]) /\
+    forall rest, stops rest -> exists u, num_loop E ((c0 :: body) ++ rest) false = (c0 :: body, rest, u).
+
+Lemma numlex_int : forall z, numlex (write_int z).
+Proof.
+  intros z. destruct (write_int_spec z) as (sign & ds & Hw & Hne & Hd & Hs).
+  destruct ds as [| c0 body]; [congruence |].
+  exists sign, c0, body. split; [exact Hw |]. split.
+  - cbn [forallb] in Hd. apply andb_true_iff in Hd as [Hd _]. exact Hd.
+  - split; [destruct Hs as [(-> & _) | (-> & _)]; auto |].
+    intros rest Hr. exists false. apply num_loop_digits_stop; assumption.
+Qed.
+
+Lemma numlex_real : forall s, real_shape s = true -> numlex s.
+Proof.
+  intros s H. destruct (real_shape_loop s H) as (sign & c0 & body & Hs & Hd & Hsg & Hl).
+  exists sign, c0, body. repeat split; auto. intros rest Hr. exists true. auto.
+Qed.
+
+Lemma read_num_int : forall z rest, stops rest -> read_num E (write_int z ++ rest) = Ok (Some (VInt z), rest).
+Proof.
+  intros z rest Hr. pose proof (parse_int_write_int z) as Hp.
+  destruct (write_int_spec z) as (sign & ds & Hw & Hne & Hd & Hs). rewrite Hw in *.
+  destruct ds as [| c0 body]; [congruence |].
+  assert (Hc0 : (c0 =? 45) = false).
+  { apply Z.eqb_neq. cbn [forallb] in Hd. apply andb_true_iff in Hd as [Hc _]. apply ascii_digit_range in Hc. lia. }
+  destruct Hs as [(-> & _) | (-> & _)]; cbn [app] in *; unfold read_num.
+  - rewrite Hc0. change (c0 :: body ++ rest) with ((c0 :: body) ++ rest).
+    rewrite (num_loop_digits_stop (c0 :: body) rest false Hd Hr). cbn [app]. rewrite Hp. reflexivity.
+  - change (45 =? 45) with true. cbv beta iota.
+    change (c0 :: body ++ rest) with ((c0 :: body) ++ rest).
+    rewrite (num_loop_digits_stop (c0 :: body) rest false Hd Hr). cbn [app]. rewrite Hp. reflexivity.
+Qed.
+
+Lemma read_num_real : forall s f rest, real_shape s = true -> parse_real E s = Some f -> stops rest ->
+  read_num E (s ++ rest) = Ok (Some (VReal f), rest).
+Proof.
+  intros s f rest H Hp Hr. destruct (real_shape_loop s H) as (sign & c0 & body & -> & Hd & Hsg & Hl).
+  assert (Hc0 : (c0 =? 45) = false).
+  { apply Z.eqb_neq. apply ascii_digit_range in Hd. lia. }
+  destruct Hsg as [-> | ->]; cbn [app] in *; unfold read_num.
+  - rewrite Hc0. rewrite (Hl rest Hr). cbn [app]. rewrite Hp. reflexivity.
+  - change (45 =? 45) with true. cbv beta iota.
+    rewrite (Hl rest Hr). cbn [app]. rewrite Hp. reflexivity.
+Qed.
+
+(* after a digit, the code point 'c' would end the number: so a written number is never taken for 0c<char> *)
+Lemma numlex_second_not_c : forall c0 body rest u x t,
+  ascii_digit c0 = true -> stops rest ->
+  num_loop E ((c0 :: body) ++ rest) false = (c0 :: body, rest, u) ->
+  body ++ rest = x :: t -> (x =? 99) = false.
+Proof.
+  intros c0 body rest u x t Hd Hr Hl Heq.
+  destruct (x =? 99) eqn:Hx; [| reflexivity]. apply Z.eqb_eq in Hx. subst x. exfalso.
+  cbn [app] in Hl. rewrite Heq in Hl.
+  pose proof (ascii_digit_range c0 Hd) as Hrg.
+  cbn [num_loop] in Hl.
+  assert (H46 : (c0 =? 46) = false) by (apply Z.eqb_neq; lia).
+  assert (H101 : (c0 =? 101) = false) by (apply Z.eqb_neq; lia).
+  rewrite H46, H101, (digit_numeric c0 Hd) in Hl. cbn in Hl.
+  inversion Hl as [[Hb Hrest Hu]]. subst body. cbn [app] in Heq. subst rest.
+  cbn in Hr. discriminate.
+Qed.
+
+(* ------------------------------------------------------------- strings *)
+Lemma read_string_written : forall s rest,
+  (match rest with [] => True | c :: _ => c <> 34 end) ->
+  read_string (write_str_body std_cfg s ++ 34 :: rest) = (s, rest).
+Proof.
+  induction s as [| c s IH]; intros rest Hr.
+  - cbn. destruct rest as [| c rest]; [reflexivity |].
+    assert (Hc : (c =? 34) = false) by (apply Z.eqb_neq; exact Hr). rewrite Hc. reflexivity.
+  - unfold write_str_body. cbn [flat_map]. fold (write_str_body std_cfg s).
+    cbn [c_esc_when c_esc_with std_cfg zs_eqb].
+    destruct (c =? 34) eqn:Hc.
+    + apply Z.eqb_eq in Hc. subst c. cbn [andb app read_string].
+      change (34 =? 34) with true. cbv beta iota. rewrite (IH rest Hr). reflexivity.
+    + cbn [andb app read_string]. rewrite Hc, (IH rest Hr). reflexivity.
+Qed.
+
+(* ------------------------------------------------------------- symbols *)
+Lemma read_sym_written : forall s rest, forallb (is_symbolic E) s = true -> stops rest ->
+  read_sym E (s ++ rest) = Ok (Some (VSym s), rest).
+Proof.
+  intros s rest Hs Hr. unfold read_sym. rewrite (span_app_stop (is_symbolic E) s rest Hs).
+  - reflexivity.
+  - destruct rest as [| c rest]; [exact I |]. apply stopc_not_symbolic. exact Hr.
+Qed.
+
+(* ------------------------------------------------------------- skip *)
+(* a text that starts a lexeme: not blank, and not the comment opener (colon, double quote) *)
+Definition lexstart (t : list Z) : Prop :=
+  match t with
+  | [] => True
+  | c :: r => is_space E c = false /\ (c = 58 -> match r with c2 :: _ => c2 <> 34 | [] => True end)
+  end.
+
+Lemma skip_lexstart : forall fuel t inl, lexstart t -> skip E fuel t inl = Ok t.
+Proof.
+  intros fuel t inl H. destruct t as [| c r].
+  - destruct fuel; reflexivity.
+  - destruct H as [Hsp Hc].
+    assert (Hss : skip_space E (c :: r) inl = c :: r) by (cbn [skip_space]; rewrite Hsp; reflexivity).
+    destruct fuel; cbn [skip]; rewrite Hss.
+    + destruct r as [| c2 r]; [reflexivity |].
+      destruct ((c =? 58) && (c2 =? 34)) eqn:Hcc; [| reflexivity].
+      apply andb_true_iff in Hcc as [H1 H2]. apply Z.eqb_eq in H1, H2. specialize (Hc H1). cbn in Hc. congruence.
+    + destruct r as [| c2 r]; [reflexivity |].
+      destruct ((c =? 58) && (c2 =? 34)) eqn:Hcc; [| reflexivity].
+      apply andb_true_iff in Hcc as [H1 H2]. apply Z.eqb_eq in H1, H2. specialize (Hc H1). cbn in Hc. congruence.
+Qed.
+
+Lemma skip_blank_lexstart : forall fuel t, lexstart t -> skip E fuel (32 :: t) true = Ok t.
+Proof.
+  intros fuel t H.
+  assert (Hss : skip_space E (32 :: t) true = skip_space E t true) by reflexivity.
+  pose proof (skip_lexstart fuel t true H) as Hk.
+  destruct fuel; cbn [skip] in *; rewrite Hss; exact Hk.
+Qed.
+
 End Lex.
